@@ -32,6 +32,12 @@ def replay_p1(data):
     bad = []
     Q = np.array(data.get("Q", np.eye(3).tolist()), float)
     cases = [("cell from lengths and angles", c0)]
+    # a triclinic cell in the standard orientation (the test file is orthorhombic: row and column scaling coincide there)
+    from chmpy.crystal import SpaceGroup
+    from chmpy.core.element import Element
+    tri = UnitCell.from_lengths_and_angles([7.1, 8.3, 9.7], [np.radians(78.0), np.radians(96.0), np.radians(107.0)])
+    cases.append(("triclinic cell from lengths and angles", Crystal(tri, SpaceGroup(2), AsymmetricUnit(
+        [Element[8], Element[1], Element[1]], np.array([[0.21, 0.33, 0.17], [0.31, 0.36, 0.12], [0.15, 0.41, 0.26]])))))
     if not np.allclose(Q, np.eye(3)):
         cases.append(("cell from lattice vectors in a rotated frame", Crystal(UnitCell(np.asarray(c0.unit_cell.direct) @ Q), c0.space_group,
                                                                           AsymmetricUnit(list(c0.asymmetric_unit.elements), np.array(c0.asymmetric_unit.positions), labels=c0.asymmetric_unit.labels))))
